@@ -22,6 +22,8 @@ type Resp struct {
 	// IDDelta is added to the correlation id echoed in the response (0 = the request's id; anything else is a framing
 	// error of the broker: a response nobody asked for).
 	IDDelta int32
+	// Stall (with Cut >= 0): after the prefix the broker goes silent instead of dropping the connection
+	Stall bool
 	// SizeSet: the size prefix of the frame is Size instead of len(Body)+4 (a lying size prefix)
 	SizeSet bool
 	Size    int32
@@ -139,8 +141,9 @@ func (b *Broker) serve() {
 	// responses are written by a second goroutine so that the broker keeps reading requests while a response waits
 	// for the client to read it (net.Pipe has no buffer; a real socket has one)
 	type outFrame struct {
-		f   []byte
-		cut bool
+		f     []byte
+		cut   bool
+		stall bool
 	}
 	wq := make(chan outFrame, 256)
 	defer close(wq)
@@ -152,7 +155,9 @@ func (b *Broker) serve() {
 			b.written += n
 			b.mu.Unlock()
 			if err != nil || o.cut {
-				b.srv.Close()
+				if err != nil || !o.stall {
+					b.srv.Close()
+				}
 				for range wq {
 				}
 				return
@@ -180,7 +185,7 @@ func (b *Broker) serve() {
 			if cut {
 				raw = raw[:rawCut]
 			}
-			wq <- outFrame{raw, cut}
+			wq <- outFrame{raw, cut, false}
 			if cut {
 				for i := 0; i < 2000; i++ {
 					if _, err := b.srv.Read(hdr[:1]); err != nil {
@@ -238,7 +243,16 @@ func (b *Broker) serve() {
 		if cut {
 			f = f[:resp.Cut]
 		}
-		wq <- outFrame{f, cut}
+		wq <- outFrame{f, cut, resp.Stall}
+		if cut && resp.Stall {
+			// silent from here on: requests are read and ignored until the client gives up / Stop
+			buf := make([]byte, 4096)
+			for {
+				if _, err := b.srv.Read(buf); err != nil {
+					return
+				}
+			}
+		}
 		if cut {
 			// the connection is dropped by the writer once the prefix is out; nothing more is read
 			for i := 0; i < 2000; i++ {
